@@ -10,13 +10,26 @@ from oracles.escape import ref_escape_text
 from oracles.util import MARK, TF, subst
 
 
-@harness("C02", pre=lambda B, s: len(s) <= B["L"],
-         bounds={"quick": {"L": 3}, "thorough": {"L": 5}},
-         sym=["s: str over all code points, len <= L"],
+def _cls0(B, c0, s):
+    if len(s) > B["L"]:
+        return False
+    if c0 == 0:
+        return len(s) == 0
+    if len(s) == 0:
+        return False
+    f = s[0]
+    k = 1 if f == "&" else (2 if f == "<" else (3 if f == ">" else 4))
+    return k == c0
+
+
+@harness("C02", pre=_cls0,
+         bounds={"quick": {"L": 4}, "thorough": {"L": 6}},
+         shard={"c0": range(5)},
+         sym=["s: str over all code points, len <= L (sharded by the class of its first character)"],
          targets=["htmltools._util.html_escape"],
-         timeout={"quick": 150, "thorough": 1500},
+         timeout={"quick": 300, "thorough": 3000},
          outside="strings longer than L")
-def k_escape_text(s: str) -> bool:
+def k_escape_text(c0: int, s: str) -> bool:
     """exported html_escape == per-character reference (3 references, everything else unchanged)."""
     if htmltools.html_escape is not _util.html_escape:
         return False
